@@ -134,7 +134,28 @@ def check(entry, seed):
                 out['int_equals_float'] = all(same(si[k], sf[k]) for k in names)
             except Exception as ex:
                 out['int_equals_float'] = 'raised ' + type(ex).__name__
-        # order: reversed request gives reversed records (element-wise solvers only; grid-dependent ones are C06)
+        # order: a permutation of the interior points (first and last kept, because documented grid-dependent solvers
+        # take their cell size / window from the end points) permutes the records in the same way
+        if layout == 'flat' and n >= 4:
+            perm = list(range(n))
+            mid = perm[1:-1]; rng.shuffle(mid)
+            if mid == perm[1:-1]:
+                mid = mid[::-1]
+            perm = [0] + mid + [n - 1]
+            try:
+                solP = s(arr[perm], t)
+                okp = True
+                for k in names:
+                    a_, b_ = np.asarray(solA[k])[perm], np.asarray(solP[k])
+                    if a_.dtype.kind in 'USO':
+                        okp = okp and bool(np.all(a_ == b_))
+                    else:
+                        a_ = a_.astype(float); b_ = b_.astype(float)
+                        okp = okp and bool(np.all((np.abs(a_ - b_) <= 1e-9 * (np.abs(a_) + np.abs(b_)) + 1e-300) | (np.isnan(a_) & np.isnan(b_))))
+                out['order_preserved'] = okp
+                out['order_perm'] = perm
+            except Exception as ex:
+                out['order_preserved'] = 'raised ' + type(ex).__name__
         # ---- CSV round trip
         fd, path = tempfile.mkstemp(suffix='.csv'); os.close(fd)
         try:
